@@ -873,3 +873,95 @@ func TestVerifC11OSPeers(t *testing.T) {
 	}
 	en.Done(true)
 }
+
+// vfPrinterUnit: the reference server's feedback lines are produced by the real printer (internal.NewPrinter +
+// PrefixPrintf, as referenceServerChecks does) for test names and messages with characters that mean something to
+// fmt or to the line parser, and consumed by the real side-band reader of runTestCasesForServer: the line is
+// attributed to the named case (and only to it), every other case keeps its pass. withReport additionally runs
+// report(): no success, the case is named FAILED with the message.
+func vfPrinterUnit(t *testing.T, unit string, withReport bool) {
+	en := verifkit.NewEnum(t, unit)
+	type row struct {
+		Name string `json:"name"`
+		Msg  string `json:"message"`
+	}
+	names := []string{"Suite/plain/case", "Suite/100% coverage/case", "Suite/%d items/%s", "Suite/tab\tname/case", "Suite/ünïcode ✓/case", "Suite/trailing percent%", "S/HTTPVersion:1/Protocol:PROTOCOL_CONNECT/a b"}
+	msgs := []string{"expected HTTP version 1; instead got 2", "value 100% wrong", "invalid value for \"grpc-timeout\" header: \"5x\": unknown unit", "stray %d verb and %!s(MISSING)"}
+	for _, name := range names {
+		for _, msg := range msgs {
+			r := row{name, msg}
+			batch := []string{"Suite/plain/first", name, "Suite/plain/last"}
+			var testCases []*conformancev1.TestCase
+			expected := map[string]*conformancev1.ClientResponseResult{}
+			for i, n := range batch {
+				exp := &conformancev1.ClientResponseResult{Payloads: []*conformancev1.ConformancePayload{{Data: []byte(fmt.Sprintf("payload-%d", i))}}}
+				testCases = append(testCases, &conformancev1.TestCase{Request: &conformancev1.ClientCompatRequest{TestName: n}, ExpectedResponse: exp})
+				expected[n] = exp
+			}
+			var stderr bytes.Buffer
+			p := internal.NewPrinter(&stderr)
+			p.Printf("starting up: %d%% done", 100)
+			p.PrefixPrintf(name, "%s", msg) // (the server's checks format their arguments into the message like this)
+			p.PrefixPrintf(name, "second finding: %v", 2)
+			p.Printf("plain log line")
+			resp, _ := proto.Marshal(&conformancev1.ServerCompatResponse{Host: "127.0.0.1", Port: 1})
+			var frame bytes.Buffer
+			var l [4]byte
+			binary.BigEndian.PutUint32(l[:], uint32(len(resp)))
+			frame.Write(l[:])
+			frame.Write(resp)
+			proc := &vfFakeProc{done: make(chan struct{})}
+			starter := processStarter(func(ctx context.Context, _ bool) (*process, error) {
+				return &process{processController: proc, stdin: &vfFakeStdin{}, stdout: bytes.NewReader(frame.Bytes()), stderr: bytes.NewReader(stderr.Bytes())}, nil
+			})
+			results := newResults(len(batch), &testTrie{}, &testTrie{}, nil)
+			client := &vfFakeClient{c: vfC11Case{N: len(batch), Delivery: "sync"}, expected: expected}
+			errP := &vfC11Printer{}
+			done := make(chan struct{})
+			go func() {
+				defer close(done)
+				runTestCasesForServer(context.Background(), false, true, serverInstance{}, testCases, nil, nil, starter, &vfC11Printer{}, errP, results, client, nil, false)
+			}()
+			var viol error
+			select {
+			case <-done:
+			case <-time.After(30 * time.Second):
+				viol = verifkit.Violf("printer-hang", "batch did not end: %+v", r)
+			}
+			if viol == nil {
+				printer := &vfC11Printer{}
+				ok := results.report(printer)
+				out := strings.Join(printer.lines, "\n")
+				results.mu.Lock()
+				target := results.outcomes[name]
+				var others []string
+				for _, n := range []string{batch[0], batch[2]} {
+					if o, present := results.outcomes[n]; !present || o.actualFailure != nil || o.setupError {
+						others = append(others, n)
+					}
+				}
+				results.mu.Unlock()
+				switch {
+				case target.actualFailure == nil:
+					viol = verifkit.Violf("printer-feedback-lost", "the reference server reported %q for %q through its printer but the case has no failure (stderr %q)", msg, name, stderr.String())
+				case !strings.Contains(target.actualFailure.Error(), msg) || !strings.Contains(target.actualFailure.Error(), "second finding: 2"):
+					viol = verifkit.Violf("printer-feedback-garbled", "the failure recorded for %q is %q, the server reported %q and a second finding (stderr %q)", name, target.actualFailure.Error(), msg, stderr.String())
+				case len(others) > 0:
+					viol = verifkit.Violf("printer-misattributed", "cases %q have no feedback but did not pass (stderr %q)", others, stderr.String())
+				case withReport && ok:
+					viol = verifkit.Violf("printer-verdict", "report() = true although %q drew feedback\noutput:\n%s", name, out)
+				case withReport && !strings.Contains(out, "FAILED: "+name+":"):
+					viol = verifkit.Violf("printer-unnamed", "%q drew feedback but no FAILED line names it\noutput:\n%s", name, out)
+				}
+			}
+			en.Rec.Observe(r, []string{fmt.Sprintf("percent-in-name:%v", strings.Contains(name, "%")), fmt.Sprintf("percent-in-message:%v", strings.Contains(msg, "%"))}, strings.Contains(name+msg, "%") || strings.Contains(msg, ": "))
+			if viol != nil && en.Fail(r, viol) {
+				en.Done(true)
+				return
+			}
+		}
+	}
+	en.Done(true)
+}
+
+func TestVerifC11Printer(t *testing.T) { vfPrinterUnit(t, "C11Printer", false) }
